@@ -3,6 +3,7 @@
 b="$1"; here="$(cd "$(dirname "$0")/.." && pwd)"; cd "$here"
 git show "$b:KNOWN_FINDINGS.json" > /tmp/kf_theirs.json 2>/dev/null || echo '{"findings":[]}' > /tmp/kf_theirs.json
 cp KNOWN_FINDINGS.json /tmp/kf_ours.json
+[ -z "$(git status --porcelain)" ] || { echo "working tree not clean: commit first"; exit 1; }
 git merge --no-edit "$b" >/tmp/merge.log 2>&1; tail -3 /tmp/merge.log
 python3 - <<'PY'
 import json
@@ -11,6 +12,9 @@ ids = {f['id'] for f in ours['findings']} | set(ours.get('retired_ids', []))
 for f in theirs.get('findings', []):
     if f['id'] not in ids:
         ours['findings'].append(f); ids.add(f['id'])
+for r in theirs.get('retired_ids', []):
+    if r not in ours.setdefault('retired_ids', []):
+        ours['retired_ids'].append(r)
 json.dump(ours, open('KNOWN_FINDINGS.json','w'), indent=1, ensure_ascii=False)
 PY
 for f in MANIFEST.json DESIGN.md; do git checkout --ours $f 2>/dev/null; done
